@@ -7,7 +7,9 @@ EXTENDS RewireCore
 CONSTANTS XSetup, Swaps, MaxDraws
 XMats == [a |-> << <<1, 0, 1>>, <<0, 1, 0>>, <<1, 0, 0>> >>,
           b |-> << <<1, 1, 0, 0>>, <<0, 0, 1, 0>> >>,
-          c |-> << <<1, 0>>, <<0, 1>>, <<1, 1>> >>]
+          c |-> << <<1, 0>>, <<0, 1>>, <<1, 1>> >>,
+          \* two groups of four nodes whose cross-link rows all differ
+          d |-> << <<1, 1, 0, 0>>, <<0, 0, 1, 0>>, <<0, 1, 0, 1>>, <<1, 0, 0, 0>> >>]
 RECURSIVE NonZero(_, _, _)
 \* row-major list of the non-zero entries (numpy.nonzero order)
 NonZero(X, i, j) == IF i > Len(X) THEN <<>>
